@@ -519,24 +519,23 @@ Proof.
   destruct it as [| | |mn insts|]; try done. simpl. destruct (Hb mn insts ltac:(by left)) as [t ->]. done.
 Qed.
 
-Theorem read_succeeds rsv bbs m : ports_match m = true → in_subset bbs m = true → bbfree m → names_ok m → outs_driven bbs m →
-  (list_to_set (module_ids m) : gset string) ⊆ rsv → ∃ C, read rsv bbs m = Ok C.
+Theorem read_succeeds_items rsv bbs m (NN : gset string) : NN ⊆ rsv → (∀ s, s ∈ NN → good_name s) →
+  Forall (item_den_ok (init_ctx rsv bbs).1 NN (list_to_set (drivers m).*1)) (m_items m) → Forall item_names (m_items m) →
+  NoDup (drivers m).*1 → ports_match m = true → (∀ s, s ∈ decl_outputs m → s ∈ decl_inputs m ∨ s ∈ (drivers m).*1) →
+  ∃ C, read rsv bbs m = Ok C.
 Proof.
-  intros Hpm Hs Hb Hnm Hod Hids. destruct (in_subset_den2 rsv bbs m Hs Hids) as (HNN & Hok & Hnd).
-  pose proof (xdrivers_defs bbs m) as Edd. rewrite (xdrivers_bbfree bbs m Hb) in *.
+  intros HNN Hgood Hok Hnames Hnd Hpm Hod.
   unfold read. pose proof (init_rinv rsv bbs) as Hk. pose proof (init_g0 rsv bbs) as Hg. cbv zeta in Hk, Hg.
   destruct (init_ctx rsv bbs) as [k g0]. simpl in Hk, Hg, Hok. destruct Hk as (Er & Eb & Htr & _ & _ & _ & Hi0). destruct Hg as (_ & _ & Hg0). subst rsv.
-  set (NN := list_to_set (module_nets m) : gset string) in *. specialize (Hi0 NN HNN).
+  specialize (Hi0 NN HNN).
   set (st0 := {| r_g := g0; r_bbs := ∅; r_ge := ∅; r_io := list_to_set (m_ports m); r_ins := ∅; r_outs := ∅ |}).
-  assert (Hgood : ∀ s, s ∈ NN → good_name s) by (intros s Hs'; apply Hnm; by apply elem_of_list_to_set in Hs').
   destruct (items_succ k NN (list_to_set (drivers m).*1) Htr HNN Hgood (m_items m) st0 []) as (st & Hf & [Kin Kp]).
   - exact Hi0.
   - intros x j Hx. destruct (Hg0 x j Hx) as (_ & Hc & _). split; intros E; rewrite E in Hc; set_solver.
   - split; [intros x Hx; by apply elem_of_empty in Hx|intros x Hx; by apply elem_of_nil in Hx].
   - simpl. set_solver.
-  - apply Forall_forall. intros it Hit. rewrite Forall_forall in Hok. specialize (Hok it Hit).
-    destruct it as [| | |mn insts|]; try exact Hok. simpl in Hok. destruct (Hb mn insts Hit) as [t Et]. rewrite Et in Hok. simpl. by rewrite Et.
-  - apply Forall_forall. intros it Hit s Hs'. apply Hnm. unfold module_nets. apply elem_of_app. right. apply elem_of_list_bind. eauto.
+  - exact Hok.
+  - exact Hnames.
   - exact Hnd.
   - done.
   - rewrite Hf. cbn [mbind res_mbind rbind]. simpl in Kp. fold (drivers m) in Kp.
@@ -551,8 +550,21 @@ Proof.
     { intros x Hx. apply elem_of_elements in Hx. assert (Hx' : x ∈ decl_outputs m) by (clear -Hx; set_solver).
       destruct (Hod x Hx') as [Hin|Hdf].
       - apply Kin. rewrite E2. clear -Hin. set_solver.
-      - apply Kp. by rewrite Edd. }
+      - by apply Kp. }
     rewrite Hso. eauto.
+Qed.
+
+Theorem read_succeeds rsv bbs m : ports_match m = true → in_subset bbs m = true → bbfree m → names_ok m → outs_driven bbs m →
+  (list_to_set (module_ids m) : gset string) ⊆ rsv → ∃ C, read rsv bbs m = Ok C.
+Proof.
+  intros Hpm Hs Hb Hnm Hod Hids. destruct (in_subset_den2 rsv bbs m Hs Hids) as (HNN & Hok & Hnd).
+  pose proof (xdrivers_defs bbs m) as Edd. rewrite (xdrivers_bbfree bbs m Hb) in *.
+  apply (read_succeeds_items rsv bbs m (list_to_set (module_nets m)) HNN); try done.
+  - intros s Hs'. apply Hnm. by apply elem_of_list_to_set in Hs'.
+  - apply Forall_forall. intros it Hit. rewrite Forall_forall in Hok. specialize (Hok it Hit).
+    destruct it as [| | |mn insts|]; try exact Hok. simpl in Hok. destruct (Hb mn insts Hit) as [t Et]. rewrite Et in Hok. simpl. by rewrite Et.
+  - apply Forall_forall. intros it Hit s Hs'. apply Hnm. unfold module_nets. apply elem_of_app. right. apply elem_of_list_bind. eauto.
+  - intros s Hs'. rewrite Edd. by apply Hod.
 Qed.
 
 
